@@ -180,6 +180,27 @@ def extract(repo=REPO, want_generated=False, keep_generated_to=None):
             d['path'] = f
             d['rel'] = os.path.relpath(f, repo) if f.startswith(repo) else os.path.basename(f)
             facts_units.append(d)
+        # second stage: instantiate every C++ wrapper template with the argument types of the C function of the same
+        # name, so that the calls inside the wrappers are resolved by clang (C18)
+        inst = instantiation_unit(facts_units)
+        if inst is not None:
+            ipath = os.path.join(sd, 'xv_cxx_inst.cpp')
+            with open(ipath, 'w') as fh:
+                fh.write(inst)
+            out = os.path.join(outdir, 'inst.json')
+            cmd = [XRL_FACTS, '--root', repo, '--root', sd, '--out', out, ipath, '--', '-std=c++11', '-x', 'c++'] + incs + \
+                ['-UNDEBUG', '-D' + GUARD, '-resource-dir', rdir, '-Wno-everything', '-ferror-limit=0']
+            rc, o = _run(cmd, timeout=300)
+            if not os.path.exists(out):
+                raise AnalysisBroken('extractor failed on the C++ instantiation unit (rc=%s):\n%s' % (rc, o[-3000:]))
+            d = json.load(open(out))
+            d['lang'] = 'cxxinst'
+            d['path'] = ipath
+            d['rel'] = 'xv_cxx_inst.cpp'
+            d['text'] = inst
+            # a wrapper that cannot be instantiated with the C argument types is a finding of C18, not a broken analysis
+            d['diagnostics'] = [l for l in o.split('\n') if ' error: ' in l or ' note: ' in l][:200]
+            facts_units.append(d)
         res = {'units': facts_units, 'scratch': sd, 'bdir': bdir, 'extract_s': time.time() - t0,
                'config_h': open(os.path.join(bdir, 'config.h')).read()}
         if want_generated and keep_generated_to:
@@ -187,6 +208,38 @@ def extract(repo=REPO, want_generated=False, keep_generated_to=None):
         return res
     finally:
         shutil.rmtree(sd, ignore_errors=True)
+
+
+def instantiation_unit(units):
+    """Text of a C++ unit that calls every xrlpp wrapper template once per applicable overload with values of exactly
+    the C prototype's parameter types (minus the trailing xrl_error**).  None when there is no C++ unit."""
+    cxx = [u for u in units if u.get('lang') == 'cxx']
+    if not cxx:
+        return None
+    templ = []
+    for f in cxx[0]['functions']:
+        if f.get('origin') == 'template' and f.get('qname', '').startswith('xrlpp::') and f['name'] not in templ:
+            templ.append(f['name'])
+    protos = {}
+    for u in units:
+        if u.get('lang') != 'c':
+            continue
+        for p in u.get('protos', []):
+            if '/include/' in (p.get('file') or '') and p.get('params') and p['params'][-1]['T'].replace(' ', '') == 'struct_xrl_error**'.replace(' ', ''):
+                protos.setdefault(p['name'], p)
+    lines = ['#include <xraylib++.h>', '#include <string>', 'namespace xv_inst {']
+    for n in templ:
+        p = protos.get(n)
+        if p is None:
+            lines.append('// %s: no C prototype with a trailing xrl_error** of that name' % n)
+            continue
+        ps = p['params'][:-1]
+        vals = ['(%s)0' % (q['T'] if '[' in (q.get('Ts') or '[') else q['Ts']) for q in ps]
+        lines.append('double generic_%s() { return xrlpp::%s(%s); }' % (n, n, ', '.join(vals)))
+        if ps and ps[0]['T'].replace(' ', '') == 'constchar*':
+            lines.append('double string_%s() { return xrlpp::%s(%s); }' % (n, n, ', '.join(['std::string()'] + vals[1:])))
+    lines.append('}')
+    return '\n'.join(lines) + '\n'
 
 
 def _prune_cache(keep):
